@@ -564,6 +564,44 @@ class Slicer:
         self._memo[key] = out
         return out
 
+    def forward_uses(self, l):
+        """consumers of local l, following plain copies/moves/casts into temporaries:
+        list of (stmt_or_term, operand_index_or_None)"""
+        out = []
+        seen = set()
+        work = [l]
+        prog, path = self.prog, self.path
+        while work:
+            x = work.pop()
+            if x in seen:
+                continue
+            seen.add(x)
+            for blk in self.body["blocks"]:
+                if blk["cleanup"]:
+                    continue
+                for st in blk["stmts"]:
+                    rv = st.get("rv")
+                    if not rv:
+                        continue
+                    used = [i for i, op in enumerate(rv.get("ops", [])) if (op_place(op) or {}).get("l") == x]
+                    if "place" in rv and rv["place"]["l"] == x:
+                        used.append(None)
+                    if not used:
+                        continue
+                    if rv["k"] in ("use",) and not st["dst"]["p"]:
+                        work.append(st["dst"]["l"])
+                    elif rv["k"] in ("ref", "refmut") and not st["dst"]["p"] and not rv["place"]["p"]:
+                        work.append(st["dst"]["l"])
+                    else:
+                        out.append((st, used[0]))
+                t = blk["term"]
+                for i, op in enumerate(t.get("args", []) or []):
+                    if (op_place(op) or {}).get("l") == x:
+                        out.append((t, i))
+                if t["k"] == "switch" and (op_place(t["on"]) or {}).get("l") == x:
+                    out.append((t, None))
+        return out
+
     # -------------------------------------------------------------- convenience
     def depends_on_param(self, origins, i, field=None):
         for o in origins:
@@ -718,7 +756,14 @@ class Expr:
                 if t["dst"]["l"] == l:
                     es.append(("call", Program.callee_name(t), tuple(self.operand(a, depth + 1) for a in t["args"]), bid))
                 else:
-                    es.append(("mutated_by", Program.callee_name(t), bid))
+                    margs = []
+                    for a in t["args"]:
+                        apl = op_place(a)
+                        if apl is not None and (apl["l"] == l or l in self.sl.mutref.get(apl["l"], ())):
+                            margs.append(("self",))
+                        else:
+                            margs.append(self.operand(a, depth + 1))
+                    es.append(("mutated_by", Program.callee_name(t), tuple(margs), bid))
         # a local initialised once and then only mutated through &mut calls: report the initial value
         base = [e for e in es if e[0] != "mutated_by"]
         muts = [e for e in es if e[0] == "mutated_by"]
@@ -803,6 +848,10 @@ def expr_str(e, depth=0):
         return "phi(%s)" % " | ".join(expr_str(x, depth + 1) for x in e[1])
     if k in ("static", "fn"):
         return e[1].split("::")[-1]
+    if k == "mutated_by":
+        return "mut:%s(%s)" % ("::".join(e[1].split("::")[-2:]), ", ".join(expr_str(a, depth + 1) for a in e[2]))
+    if k == "self":
+        return "self"
     if k == "discr":
         return "discr(%s)" % expr_str(e[1], depth + 1)
     return str(e)
